@@ -100,6 +100,9 @@ Definition layout (lines : list str) : str :=
   let ls := if check_header ls then ls else standard_header :: ls in
   join [10] (format_eof ls).
 
+(* [limit1]: the parser's scanner, [limit2]: processFile's scanner *)
+Definition format_bytes2 (orders : nat -> list pname) (limit1 limit2 : N) (contents : str) : outcome str :=
+  do ts <- format_parse orders 0 (scan_lines limit1 contents);
+  Ok (layout (scan_lines limit2 (unlines ts))).
 Definition format_bytes (orders : nat -> list pname) (limit : N) (contents : str) : outcome str :=
-  do ts <- format_parse orders 0 (scan_lines limit contents);
-  Ok (layout (scan_lines limit (unlines ts))).
+  format_bytes2 orders limit limit contents.
